@@ -9,16 +9,19 @@ Export ListNotations.
 Definition bytes := list byte.
 
 Definition bN (b : byte) : N := Byte.to_N b.
+(* n mod 256, computed by masking (structural on binary numbers, unlike division) *)
 Definition byte_of_N (n : N) : byte :=
-  match Byte.of_N (n mod 256) with Some b => b | None => x00 end.
+  match Byte.of_N (N.land n 255) with Some b => b | None => x00 end.
 
+Lemma land255 n : N.land n 255 = (n mod 256)%N.
+Proof. change 255%N with (N.ones 8). rewrite N.land_ones. reflexivity. Qed.
 Lemma to_N_byte_of_N n : Byte.to_N (byte_of_N n) = (n mod 256)%N.
-Proof. unfold byte_of_N. destruct (Byte.of_N (n mod 256)) eqn:E.
+Proof. unfold byte_of_N. rewrite land255. destruct (Byte.of_N (n mod 256)) eqn:E.
   - now apply Byte.to_of_N in E.
   - apply Byte.of_N_None_iff in E. pose proof (N.mod_lt n 256). lia. Qed.
 Lemma byte_of_to_N b : byte_of_N (Byte.to_N b) = b.
 Proof. unfold byte_of_N. pose proof (Byte.to_N_bounded b).
-  rewrite N.mod_small by lia. now rewrite Byte.of_to_N. Qed.
+  rewrite land255, N.mod_small by lia. now rewrite Byte.of_to_N. Qed.
 Lemma bN_inj a b : bN a = bN b -> a = b.
 Proof. unfold bN; intros H. rewrite <- (byte_of_to_N a), <- (byte_of_to_N b). now rewrite H. Qed.
 
@@ -132,7 +135,7 @@ Proof. induction bs using rev_ind; [reflexivity|].
   { symmetry. apply N.div_unique with (Byte.to_N x); lia. }
   rewrite IHbs. f_equal. f_equal.
   assert (byte_of_N (be_dec bs * 256 + Byte.to_N x) = byte_of_N (Byte.to_N x)) as ->.
-  { unfold byte_of_N. rewrite N.add_comm, N.mod_add by lia. reflexivity. }
+  { unfold byte_of_N. rewrite !land255, N.add_comm, N.mod_add by lia. reflexivity. }
   apply byte_of_to_N. Qed.
 Lemma be_enc_inj w a b : (a < 256 ^ N.of_nat w)%N -> (b < 256 ^ N.of_nat w)%N -> be_enc w a = be_enc w b -> a = b.
 Proof. intros Ha Hb E. apply (f_equal be_dec) in E. rewrite !be_dec_enc in E.
